@@ -84,6 +84,29 @@ def u1_lemmas(tier, ndjson=(0, 1), havoc=(0, 1)):
     return ls
 
 
+def u3_lemmas(tier, ndjson=(0, 1)):
+    """the stage-1 driver alone on free layouts (U3)"""
+    ls = []
+    for limit, isz in ((2, "130"), (3, "131")):
+        ks = (0, 1, 2) if tier == "quick" else (0, 1, 2, 3, 4)
+        if tier == "quick" and limit == 3:
+            ks = (2,)
+        for k in ks:
+            ls.append(Lemma("U3.stage1driver.K%d.limit%d" % (k + 1, limit), "verifHarness_U3_Stage1Driver", FU1 + ["zz_verif_u3.go"],
+                            splits=[{"K": k, "ndjson": nd} for nd in ndjson], split_depth="auto", intr=Stage2SummIntrinsics,
+                            scale={"indexSize": isz}, replay_patches=["kernelcontract"],
+                            desc="findStructuralIndices alone on every layout of %d token starts at gaps from {1,5,64,131} bytes followed by a tail of "
+                                 "{0,1,70,140} non-structural bytes (unfinished atom or string), message bytes fully symbolic, kernel = its contract "
+                                 "(A1-A7 + carry hand-over) with an error bit injected at kernel call 0, 1, 2 or never and the message ending inside "
+                                 "a string or not, index limit scaled to %d: the index stream reconstructed as stage 2 reads it names exactly the "
+                                 "structural positions in order, the terminator is sent on every exit, the verdict is the documented one, and no "
+                                 "index or slice expression of the driver goes out of range" % (k + 1, limit),
+                            bound="%d tokens, message <= %d bytes (up to %d blocks); index limit scaled 1408 -> %d" % (
+                                k + 1, 131 * k + 141, (131 * k + 141 + 63) // 64, limit),
+                            expect_reach=["U3.returned", "U3.ok"]))
+    return ls
+
+
 def p3_skeleton_lemmas(tier, ndjson=(0, 1)):
     ls = []
     for nd in ndjson:
